@@ -192,7 +192,15 @@ class CallMixin:
                 d = _dotted(c)
                 if d is None:
                     raise Unsupported('isinstance with computed class')
-                names.append(d.split('.')[-1])
+                nm = d.split('.')[-1]
+                # module-level aliases of classes (`_ModuleT = Module`)
+                ctx = self.fstack[-1] if self.fstack else None
+                mi = self.src.modules.get(ctx.relpath) if ctx else None
+                seen_alias = set()
+                while mi is not None and nm in mi.globals and isinstance(mi.globals[nm], ast.Name) and nm not in seen_alias:
+                    seen_alias.add(nm)
+                    nm = mi.globals[nm].id
+                names.append(nm)
             if isinstance(v.ty, TOpt):
                 inner = V(v.ty.inner, v.ty.val(v.t))
                 r = self._isinst(inner, names)
@@ -528,7 +536,9 @@ class CallMixin:
         try:
             for nm, tx in c.lets.items():
                 cenv[nm] = self.ev_spec_val(tx, st)
-            spec_pure = bool(self.spec_mode) and c.pure and not c.modifies
+            # (only inside contract/spec text: a comprehension of the *code* is evaluated under ev1q as well, and there the
+            # callee's contract is all the caller knows about it)
+            spec_pure = bool(self.spec_mode) and not self.code_quant and c.pure and not c.modifies
             for k, r in enumerate(c.requires):
                 if spec_pure:
                     break      # inside a specification a pure query is just its (uninterpreted) value
@@ -768,10 +778,12 @@ class CallMixin:
         ctx = FuncCtx('<spec>', sf.name, sf.node, None, None)
         self.fstack.append(ctx)
         self.spec_mode += 1
+        saved_cq, self.code_quant = self.code_quant, 0
         try:
             outs = self.exec_block(sf.node.body, sub)
         finally:
             self.spec_mode -= 1
+            self.code_quant = saved_cq
             self.fstack.pop()
         cases = []
         for o in outs:
@@ -1016,11 +1028,16 @@ class CallMixin:
         return out
 
     def ev1q(self, e, st):
+        code = not self.spec_mode          # the body of a comprehension of the verified code (not of a contract clause)
         self.spec_mode += 1
+        if code:
+            self.code_quant += 1
         try:
             return self.ev1(e, st)
         finally:
             self.spec_mode -= 1
+            if code:
+                self.code_quant -= 1
 
     def e_GeneratorExp(self, e, st, exits):
         yield from self.e_ListComp(e, st, exits)
